@@ -66,6 +66,15 @@ pub struct WorldCfg {
     /// connection too) instead of index 1
     pub owner_is_contact_point: bool,
     pub keepalive: Option<(Duration, Duration)>,
+    /// connections per host
+    pub pool: usize,
+    /// retry policy of the default execution profile (None = the driver's default policy)
+    pub retry: Option<Arc<dyn scylla::policies::retry::RetryPolicy>>,
+}
+impl WorldCfg {
+    pub fn new(nodes: usize) -> WorldCfg {
+        WorldCfg { nodes, owner_is_contact_point: nodes == 1, keepalive: None, pool: 1, retry: None }
+    }
 }
 
 impl World {
@@ -92,10 +101,14 @@ impl World {
         }
         // No client-side request timeout: a request that is never failed by its connection stays pending (a hang is
         // then a hang, not an error after the default 30 s).
-        let profile = ExecutionProfile::builder().request_timeout(None).build();
+        let mut pb = ExecutionProfile::builder().request_timeout(None);
+        if let Some(rp) = &cfg.retry {
+            pb = pb.retry_policy(rp.clone());
+        }
+        let profile = pb.build();
         let mut sb = SessionBuilder::new()
             .known_node(cluster.contact_point(0))
-            .pool_size(PoolSize::PerHost(NonZeroUsize::new(1).unwrap()))
+            .pool_size(PoolSize::PerHost(NonZeroUsize::new(cfg.pool.max(1)).unwrap()))
             .default_execution_profile_handle(profile.into_handle());
         if let Some((i, t)) = cfg.keepalive {
             sb = sb.keepalive_interval(i).keepalive_timeout(t);
@@ -204,7 +217,10 @@ pub fn answered_by(log: &[Arc<LogEntry>], v: i32) -> BTreeSet<usize> {
 }
 
 pub fn runtime() -> tokio::runtime::Runtime {
-    tokio::runtime::Builder::new_multi_thread().worker_threads(2).enable_all().build().unwrap_or_else(|e| vcore::machinery_error(&format!("tokio runtime: {e}")))
+    runtime_n(2)
+}
+pub fn runtime_n(workers: usize) -> tokio::runtime::Runtime {
+    tokio::runtime::Builder::new_multi_thread().worker_threads(workers).enable_all().build().unwrap_or_else(|e| vcore::machinery_error(&format!("tokio runtime: {e}")))
 }
 
 pub fn permutations(n: usize) -> Vec<Vec<usize>> {
